@@ -706,6 +706,12 @@ def _render_builtin_operation(expression, ir, field_reader, subexpressions):
         intermediate_type = "bool"
     arg_types = [_cpp_basic_type_for_expression(arg, ir) for arg in args]
     result_type = _cpp_basic_type_for_expression(expression, ir)
+    if expression.function.function == ir_data.FunctionMapping.CHOICE:
+        # Choice does no arithmetic: it casts the selected branch to the result
+        # type, and requires IntermediateT == ResultT.  When the condition is
+        # constant, the result's range is the selected branch's alone, so the
+        # type covering *all* arguments can be wider than the result type.
+        intermediate_type = result_type
     function_variant = "</**/{}, {}, {}>".format(
         intermediate_type, result_type, ", ".join(arg_types)
     )
